@@ -121,7 +121,7 @@ fn encode_stream_with(w: &Workload, plan: Option<Vec<ReadPlan>>) -> Result<Vec<u
     if let Some(p) = plan {
         src.set_plan(p);
     }
-    let cfg = w.cfg.build(false, None, w.block);
+    let cfg = w.cfg.build(false, None, w.config_block());
     let st = flacenc::encode_with_fixed_block_size(&cfg, &mut src, w.block).map_err(|e| format!("{e}"))?;
     let mut sink = ByteSink::new();
     st.write(&mut sink).map_err(|e| format!("write: {e}"))?;
